@@ -9,25 +9,26 @@
 (***************************************************************************)
 EXTENDS Registry
 
-Pick(S) == RandomElement(S)
+\* RandomElement is re-evaluated at every occurrence of a LET name, so draws are bound by \E
+One(S) == {RandomElement(S)}
 
-RandTok(e) == LET k == Pick(1..8) IN
-              IF k <= 4 THEN <<"Reg", e, Pick(Listings)>>
-              ELSE IF k <= 6 THEN <<"Fail", e, Pick(FailKinds), Pick(FailBodies)>>
-              ELSE <<"Rm", e>>
+TokOf(e, k, L, f, B) == IF k <= 4 THEN <<"Reg", e, L>>
+                        ELSE IF k <= 6 THEN <<"Fail", e, f, B>>
+                        ELSE <<"Rm", e>>
+\* one random single-endpoint token per endpoint
+RandToks == [e \in Eps |->
+               CHOOSE t \in {TokOf(e, k, L, f, B) : k \in One(1..8), L \in One(Listings), f \in One(FailKinds), B \in One(FailBodies)} : TRUE]
 
 SimStep ==
-    LET k == Pick(1..20)
-        e == Pick(Eps)
-    IN  IF k <= 7 THEN Register(e, Pick(Listings))
-        ELSE IF k <= 9 THEN RegisterBad(e, Pick(BadLists))
-        ELSE IF k <= 12 THEN DiscoveryFails(e, Pick(FailKinds), Pick(FailBodies))
-        ELSE IF k <= 15 THEN Remove(e)
-        ELSE IF k <= 17 /\ WithConcurrency
-             THEN LET L1 == Pick(Listings) L2 == Pick(Listings) IN Burst(e, L1, L2)
-        ELSE IF WithConcurrency /\ Cardinality(Eps) >= 2
-             THEN LET D == Pick({X \in SUBSET Eps : Cardinality(X) >= 2}) IN
-                  Par([x \in D |-> RandTok(x)])
+    \E k \in One(1..20) : \E e \in One(Eps) : \E L1 \in One(Listings) : \E L2 \in One(Listings) :
+    \E B \in One(BadLists) : \E f \in One(FailKinds) : \E FB \in One(FailBodies) :
+    \E D \in One({X \in SUBSET Eps : Cardinality(X) >= 2} \cup {{e}}) : \E T \in {RandToks} :
+        IF k <= 7 THEN Register(e, L1)
+        ELSE IF k <= 9 THEN RegisterBad(e, B)
+        ELSE IF k <= 12 THEN DiscoveryFails(e, f, FB)
+        ELSE IF k <= 15 \/ ~WithConcurrency THEN Remove(e)
+        ELSE IF k <= 17 THEN Burst(e, L1, L2)
+        ELSE IF Cardinality(D) >= 2 THEN Par([x \in D |-> T[x]])
         ELSE Remove(e)
 
 SimNext == Len(scn.ops) < MaxLen /\ SimStep
